@@ -2,6 +2,37 @@
 import core
 
 
+def run_pslister(ctx, binary, codec, exported, q, stats):
+    """The shipped lister resolves a PPS to its SPS by id too: the built mp4ff-pslister is given the (SPS, PPS) pairs of the PPS
+    vectors (every id assignment) in hex; it must print both parameter sets (exit 0) for every pair the library parsers accept."""
+    import subprocess
+    vps = "40010c01ffff01600000030090000003000003005d959809"
+    pairs = {}
+    for e in exported:
+        pairs.setdefault((bytes(e["spsnal"]), bytes(e["nal"])), e)
+    todo = [pairs[k] for k in sorted(pairs)]
+    step = max(1, len(todo) // (300 if q else 3000))
+    for i, e in enumerate(todo):
+        if i % step != ctx.seed % step:
+            continue
+        cmd = [binary, "-c", codec, "-sps", bytes(e["spsnal"]).hex(), "-pps", bytes(e["nal"]).hex()]
+        if codec == "hevc":
+            cmd += ["-vps", vps]
+        try:
+            p = subprocess.run(cmd, capture_output=True, text=True, timeout=20, errors="replace")
+        except subprocess.TimeoutExpired:
+            ctx.report("tool/pslister/%s/hang" % codec, "mp4ff-pslister does not return within 20 s", {"cmd": " ".join(cmd[1:])})
+            continue
+        stats["runs"] += 1
+        if p.returncode == 0:
+            stats["ok"] += 1
+        else:
+            msg = (p.stderr or p.stdout).strip().splitlines()[-1:] or [""]
+            what = "sps-id-not-resolved" if "not found in map" in msg[0] or "unknown" in msg[0] else "rejects-valid-parameter-sets"
+            ctx.report("tool/pslister/%s/%s" % (codec, what), "mp4ff-pslister fails on a valid (SPS, PPS) pair: " + msg[0][:200],
+                       {"cmd": " ".join(cmd[1:]), "sps_id": e["p"].get("spsid") if isinstance(e.get("p"), dict) else None})
+
+
 def run(ctx):
     q = ctx.tier == "quick"
     t = "quick" if q else "thorough"
@@ -9,6 +40,8 @@ def run(ctx):
     specs = [("AvcSyntax", "Avc_%s_%s.cfg" % (s, t), "c15-replay") for s in ("sps", "pps", "slice")]
     specs += [("HevcSyntax", "Hevc_%s_%s.cfg" % (s, t), "c15-hevc-replay") for s in ("sps", "pps", "slice")]
     counts = {}
+    lister = {"runs": 0, "ok": 0}
+    pslister = ctx.build_repo_binary("./cmd/mp4ff-pslister", "mp4ff-pslister")
     for mod, cfg, cmd in specs:
         r = ctx.tlc_ok(mod, cfg, workers=14, timeout=3000, heap="16g", stack="256m")
         if not r.exported:
@@ -16,6 +49,10 @@ def run(ctx):
         counts[cfg] = len(r.exported)
         inp = ctx.write_ndjson(cfg + ".ndjson", r.exported)
         core.absorb(ctx, ctx.harness([cmd, "-in", inp], timeout=3000))
+        if "_pps_" in cfg:
+            run_pslister(ctx, pslister, "avc" if mod == "AvcSyntax" else "hevc", r.exported, q, lister)
+    if lister["ok"] < 100:
+        raise core.Machinery("mp4ff-pslister printed only %d (SPS, PPS) pairs" % lister["ok"])
     ctx.cov["bounds"] = {"avc_sps": "6 base vectors x every field over its boundary set%s; VUI/HRD single-field and branch pairs" % ("" if q else " + all field pairs on 2 bases"),
                          "avc_pps": "single-field%s variations x 6 (pps id, sps id) assignments x 2 SPS contexts" % ("" if q else " and pairwise"),
                          "avc_slice": "single-field variations x 5 SPS contexts x 5 PPS contexts x nal types {1,5} x nal_ref_idc {0,1,3}, slice types 0..9",
@@ -25,6 +62,7 @@ def run(ctx):
                          "hevc_pps": "2 bases (tiles, deblocking control, range extension) x single-field%s variations x 6 (pps id, sps id) assignments" % ("" if q else " and pairwise"),
                          "hevc_slice": "single-field%s variations x 5 SPS contexts x 7 PPS contexts x nal types {TRAIL_R, IDR_W_RADL, CRA}: dependent segments, SPS / slice-level / inter-predicted RPS, "
                                        "long-term pictures, ref-pic-list modification (NumPicTotalCurr), pred-weight tables, deblocking override and inference, entry points, header extension" % ("" if q else " and pairwise"),
+                         "pslister": "the built mp4ff-pslister on %d (SPS, PPS) pairs in hex (all id assignments): %d printed" % (lister["runs"], lister["ok"]),
                          "vectors": counts}
     ctx.cov["rule"] = ("one behaviour per value vector enumerated by the syntax spec; the NAL unit is serialised by the TLA+ transcription of the "
                        "standard (incl. emulation prevention) and parsed by the real parser; non-trivial = vector reached the field comparison")
